@@ -34,6 +34,20 @@ pub struct Mv {
     pub promo: u8,
 }
 
+/// Field-wise equality (the derived `==` on the nested arrays is a 96-byte memcmp loop that would need
+/// its own unwinding bound in every harness).
+pub fn same_bb(a: &[[u64; 6]; 2], b: &[[u64; 6]; 2]) -> bool {
+    a[0][0] == b[0][0] && a[0][1] == b[0][1] && a[0][2] == b[0][2] && a[0][3] == b[0][3] && a[0][4] == b[0][4] && a[0][5] == b[0][5]
+        && a[1][0] == b[1][0] && a[1][1] == b[1][1] && a[1][2] == b[1][2] && a[1][3] == b[1][3] && a[1][4] == b[1][4] && a[1][5] == b[1][5]
+}
+
+pub fn same_pos(a: &Pos, b: &Pos) -> bool {
+    same_bb(&a.bb, &b.bb)
+        && a.wtm == b.wtm
+        && a.rights[0] == b.rights[0] && a.rights[1] == b.rights[1] && a.rights[2] == b.rights[2] && a.rights[3] == b.rights[3]
+        && a.ep == b.ep && a.half == b.half && a.full == b.full
+}
+
 #[inline(always)]
 pub fn occ_of(bb: &[[u64; 6]; 2], c: usize) -> u64 {
     bb[c][0] | bb[c][1] | bb[c][2] | bb[c][3] | bb[c][4] | bb[c][5]
